@@ -53,6 +53,12 @@ func (e *Env) NewPath() string {
 
 // Remove deletes a database and its journal.
 func Remove(path string) {
+	if keep := os.Getenv("VERIF_KEEP_DB"); keep != "" {
+		// debugging aid for replays: keep a copy of the database file
+		if b, err := os.ReadFile(path); err == nil {
+			os.WriteFile(keep, b, 0o644)
+		}
+	}
 	os.Remove(path)
 	os.Remove(path + "-journal")
 	os.Remove(path + "-wal")
